@@ -334,6 +334,11 @@ def check(prog, run):
     sentinel.check(prog, run, "S1", ["py_gql.validation", "py_gql.utilities"], 3,
                    "a KeyError raised while validating or collecting would be read as `unknown name` and the document accepted")
 
+    # ---- M1 per-request memo tables of the executor (shared with C04.H2): the grouped sub-selection of a response key is
+    #         cached per (runtime type, merged selections); a lossy key hands one object's sub-fields to another
+    from . import c04
+    c04.check_memo_keys(prog, run, "M1")
+
     r = run.rule("A1", "every local variable read in execution/** and utilities/** functions is assigned on every path reaching "
                        "the read (definite assignment over the CFG incl. exception edges)", 100)
     mods = [m for m in prog.modules.values() if m.name.startswith("py_gql.execution") or m.name.startswith("py_gql.utilities")]
